@@ -327,6 +327,34 @@ def ob_eval_functions():
     return Verdict(DISCHARGED, backend="uninterpreted functions, concrete loop bounds", sub=n)
 
 
+def ob_eval_functions_loops(canary=False):
+    """_GroupElem._Eval_Functions for ALL nPg, nF, nPe: the three nested loops fill out[p, f, n] = functions[n, f](*gaussPoints[p]) for every p < nPg, f < nF, n < nPe
+    (loop contract: lexicographic fill invariant generated from the AST, verification conditions discharged by z3; see vt/loopvc.py)"""
+    import ast as _ast
+    import textwrap
+    from vt import loopvc
+    fn = extract.get(common.GROUP_PATH, "_GroupElem._Eval_Functions")
+    node = fn.node
+    if canary:
+        src = textwrap.dedent(fn.source).replace("function_nPe[f](*gaussPoints[p])", "function_nPe[f](*gaussPoints[n])")
+        node = [x for x in _ast.walk(_ast.parse(src)) if isinstance(x, _ast.FunctionDef)][0]
+    res = loopvc.verify_fill(node, "functions[n, f](*gaussPoints[p])", (("shape", "gaussPoints", 0), ("shape", "functions", 1), ("shape", "functions", 0)))
+    bad = [(nm, st) for nm, st, _ in res if st != "proved"]
+    if any(st.startswith("refuted") for _, st in bad):
+        nm, st = next((a, b) for a, b in bad if b.startswith("refuted"))
+        replay = None
+        if not canary:
+            try:
+                ob_eval_functions()
+                replay = dict(confirmed=False, note="the bounded run on 4 concrete bound tuples passes")
+            except Refuted as e:
+                replay = dict(confirmed=True, native=str(e)[:200])
+        raise Refuted(f"_Eval_Functions: verification condition '{nm}' of the fill nest fails: {st[:300]}", signature=f"eval:vc:{nm}", replay=replay)
+    if bad:
+        raise Unsupported(f"z3 left {bad} undecided")
+    return Verdict(DISCHARGED, backend="loop contract (lexicographic fill invariant) + z3", sub=len(res), solver_s=sum(t for *_, t in res))
+
+
 def ob_accessors(et):
     """the public accessors serve the tables: Get_N_pg, Get_dN_pg, Get_ddN_pg, Get_dddN_pg, Get_ddddN_pg (matrixType) == the tabulated functions _N ... _ddddN
     evaluated at the integration points of that matrix type -- for every derivative order, whether or not the derivative vanishes for this element."""
@@ -384,6 +412,9 @@ def build(tier, seed):
                           clause=f"{HTABLES[k]} == d/dr {HTABLES[k-1]} (sum |coef| of the difference <= 1e-11)"))
         for t in HTABLES:
             funcs[f"{et}.{t}"] = extract.get(bpath, f"{et}.{t}").describe()
+    obs.append(Ob("C06._Eval_Functions.loops", ob_eval_functions_loops, (), "P", (f"{common.GROUP_PATH}::_GroupElem._Eval_Functions",),
+                  clause="forall nPg, nF, nPe: out[p, f, n] == functions[n, f](*gaussPoints[p]) for every index within the bounds, shape (nPg, nF, nPe): loop contract, 8 verification conditions"))
+    obs.append(Ob("canary.eval.loops", ob_eval_functions_loops, (True,), "P", expect=REFUTED))
     obs.append(Ob("C06._Eval_Functions", ob_eval_functions, (), "B", (f"{common.GROUP_PATH}::_GroupElem._Eval_Functions",),
                   bound="(nPg,nF,nPe,dim) in {(1,1,2,1),(3,2,4,2),(2,3,5,3),(4,1,3,2)}",
                   clause="out[p,f,n] == functions[n][f](*points[p])"))
@@ -404,7 +435,7 @@ def build(tier, seed):
                       "sympy 1.14 polynomial normal form and differentiation",
                       "element metadata (nPe, dim, order) read from GroupElemFactory.DICT_GMSH_DATA of the working tree"],
         assumptions=["machine arithmetic treated as mathematical", "Hermite clauses hold within 1e-12 (exactly evaluated), not exactly",
-                     "_Eval_Functions checked at 4 concrete loop-bound tuples (bounded, not counted as proved)"],
+                     "_Eval_Functions: proved for all loop bounds by a loop contract (C06._Eval_Functions.loops); the run at 4 concrete bound tuples is kept as the native cross-check of that obligation"],
         functions=funcs,
         dropped=["D1 decorators except property/staticmethod/classmethod/abstractmethod", "D2 annotations", "D3 docstrings",
                  "D4 float literals -> exact rationals, `/` `**` exact", "__init__ skipped (object.__new__ + private fields nPe, dim, order)"],
